@@ -301,6 +301,12 @@ func (s *Server) WrapListener(ln net.Listener) net.Listener {
 	if ln == nil {
 		return nil
 	}
+	// a listener inherited on a graceful restart arrives as a bare TCP
+	// listener: give it the same wrapper as one made by Listen, so that
+	// it is handed over the same (safe) way on the next restart
+	if tcpLn, ok := ln.(*net.TCPListener); ok {
+		ln = tcpKeepAliveListener{TCPListener: tcpLn}
+	}
 	cln := ln.(casket.Listener)
 	for _, site := range s.sites {
 		for _, m := range site.listenerMiddleware {
